@@ -41,6 +41,7 @@ func profileFor(prop string) *Profile {
 	case "C05":
 		p.WStranger = 4
 		p.ModuleCtx = 0.5
+		p.NoForeignImport = 0.6
 	case "C06", "C07":
 		p.WConsumer, p.WOwner = 4, 3
 		p.TimePromos = 0.7
@@ -96,6 +97,11 @@ func profileFor(prop string) *Profile {
 	default:
 		p.Faults["expcont"] = true
 		p.ExpContRuns = 0.12
+		if prop == "C05" {
+			p.ExpContRuns = 0.2
+		} else if prop != "C12" {
+			p.NoForeignImport = 0.15
+		}
 	}
 	return p
 }
@@ -223,6 +229,13 @@ func NewGen(seed int64, prop string, run int, thorough bool) *Gen {
 	g.useHugeFreq = g.chance(prof.HugeFreq)
 	g.useModule = g.chance(prof.ModuleCtx)
 	g.useExpCont = prof.Faults["expcont"] && g.chance(prof.ExpContRuns)
+	if prop == "C20" && g.mrng.Float64() < 0.15 {
+		// solo runs: one node, no lockstep replica; the chain is exported at zero height, restarted from the genesis file and
+		// lives on — "cannot crash the chain" also holds for blocks processed on imported state
+		cfg.Replicas = 1
+		g.useExpCont = true
+		g.faults["expcont"] = true
+	}
 	if g.useExpCont && prop != "C19" {
 		// addresses that are not 20 bytes long make the exported genesis unreadable (known finding A20): keep them out
 		// of the export runs of profiles that do not list that finding
